@@ -128,6 +128,7 @@ theorem limits_in_word_range (u : String) (t : Rat) (hmin : (heaterMinTemp u : R
     have e2 : ((heaterMaxTemp u : Int) : Rat) = 104 := by simp only [heaterMaxTemp, hu, if_false]; decide +kernel
     have wF : ∀ x, write u x = write "F" x := by intro x; rw [write_eq, write_eq]; simp [hu]
     rw [e1, wF, wF] at l; rw [e2, wF, wF] at r
+    rw [wF]
     omega
 
 example : (heaterMinTemp "C" : Rat) ≤ 37 ∧ (37 : Rat) ≤ (heaterMaxTemp "C" : Rat) := by decide +kernel
